@@ -335,6 +335,11 @@ dround_ddur(struct dt_d_s d, struct dt_ddur_s dur, bool nextp)
 				/* we're ON the date already and no
 				 * next/prev date is requested */
 				;
+			} else if (!forw && !nextp &&
+				   d.ymd.d == __get_mdays(d.ymd.y, d.ymd.m)) {
+				/* we're on ultimo which is what a TGT beyond
+				 * it is fixed up to, so we're ON the date */
+				;
 			} else if (forw) {
 				if (LIKELY(d.ymd.m < GREG_MONTHS_P_YEAR)) {
 					d.ymd.m++;
